@@ -321,10 +321,64 @@ def build_c_driver():
     log("[build] C driver (ASan+UBSan and plain) linked against libmla.a")
 
 
+def c20_miri(run, prod_bin, tier):
+    """thorough: the bindings' source compiled into a Rust driver and interpreted by Miri (no FFI boundary)"""
+    if tier != "thorough":
+        return
+    import re as _re
+    crate = os.path.join(orch.HARNESS, "capi_miri")
+    lock = os.path.join(crate, "Cargo.lock")
+    if not os.path.exists(lock):
+        import shutil as _sh
+        _sh.copy(os.path.join(orch.REPO, "Cargo.lock"), lock)
+    env = orch.cargo_env()
+    env["MIRIFLAGS"] = "-Zmiri-disable-isolation"
+    tdir = os.path.join(orch.TARGET, "miri")
+    base = ["cargo", "+nightly", "miri", "run", "--offline", "--target-dir", tdir, "--"]
+    # build once (first scenario), then the others in parallel
+    procs = []
+    import time as _t
+    t0 = _t.time()
+    first = subprocess.run(base + ["2"], cwd=crate, env=env, stdout=subprocess.PIPE, stderr=subprocess.PIPE, text=True, timeout=3600)
+    results = {2: first}
+    for sc in (0, 1, 3, 4, 5):
+        procs.append((sc, subprocess.Popen(base + [str(sc)], cwd=crate, env=env, stdout=subprocess.PIPE, stderr=subprocess.PIPE, text=True)))
+    for sc, p in procs:
+        try:
+            out, err = p.communicate(timeout=3600)
+            results[sc] = subprocess.CompletedProcess(p.args, p.returncode, out, err)
+        except subprocess.TimeoutExpired:
+            p.kill()
+            run.inconc.append(dict(what="miri scenario timed out", scenario=sc))
+    names = {0: "create_full_writes", 1: "create_partial_writes", 2: "null_and_cleared_handles", 3: "extract_partial_reads_and_writes",
+             4: "failing_write_callback", 5: "failing_flush_callback_then_reuse"}
+    for sc, r in sorted(results.items()):
+        run.evaluations += 1
+        run.fps.add(0xC20_0000 + sc)
+        run.counters[f"miri:{names[sc]}"] = run.counters.get(f"miri:{names[sc]}", 0) + 1
+        if r.returncode == 0 and f"scenario {sc} done" in r.stdout:
+            run.counters["miri:scenarios_clean"] = run.counters.get("miri:scenarios_clean", 0) + 1
+            continue
+        m = _re.search(r"error: Undefined Behavior: ([^\n]*)", r.stderr)
+        if m:
+            cls = _re.sub(r"[0-9<>x\[\]]+", "#", m.group(1))[:80]
+            frames = [l.strip() for l in r.stderr.splitlines() if "/repo/bindings" in l][:3]
+            run.viols.append(dict(k="viol", prop="C20", sig=f"miri-undefined-behavior:{names[sc]}:{cls}", scale="prod",
+                                  scenario={"miri_scenario": sc}, detail=dict(message=m.group(1)[:300], frames=frames), **{"from": "C20"}))
+        elif "panicked at" in r.stderr:
+            msg = r.stderr[r.stderr.index("panicked at"):][:400]
+            run.viols.append(dict(k="viol", prop="C20", sig=f"miri-assertion:{names[sc]}", scale="prod",
+                                  scenario={"miri_scenario": sc}, detail=dict(message=msg), **{"from": "C20"}))
+        else:
+            run.inconc.append(dict(what="miri scenario did not complete", scenario=sc, stderr=r.stderr[-400:]))
+    run.stages.append(dict(name="C20@miri", scale="prod", scenarios=len(results), wall_s=round(_t.time() - t0, 1)))
+    log(f"[stage] C20@miri: {len(results)} scenarios interpreted, {run.counters.get('miri:scenarios_clean', 0)} clean")
+
+
 def c20(tier, seed):
     build_c_driver()
     return generic(
-        "C20", tier, seed, scaled_quick=(), scaled_thorough=(), budgets=(480, 1800),
+        "C20", tier, seed, scaled_quick=(), scaled_thorough=(), budgets=(480, 1800), extra_stages=c20_miri,
         rule="a C driver compiled with ASan+UBSan (a subset also uninstrumented under valgrind memcheck) and linked against libmla.a built from the tree interprets "
              "generated programs: archive creation through mla_archive_file_new/append/flush/close with write callbacks following an acceptance schedule (1 byte, 1..7, "
              "4095, ...), read back by the Rust reader and compared with what was passed in; extraction of library-written archives through mla_roarchive_extract with "
